@@ -201,7 +201,11 @@ def conditions : AnyRule → List Cond
   | .room r => [.eventMatch keyRoomId r.ruleId]
   | .sender r => [.eventMatch keySender r.ruleId]
 
-/-- The legacy mention rules, which are switched off by `m.mentions`. -/
+/-- The legacy mention rules, which are switched off by `m.mentions`.
+The `.underride` row follows the implementation, not the Matrix spec: the spec names
+`.m.rule.roomnotif` and `.m.rule.contains_display_name` only as *override* rules, but
+`ConditionalPushRule::applies` (push.rs) is shared by both conditional kinds and tests the rule id
+only, so an underride rule carrying one of these two ids is switched off as well. -/
 def legacyMention : AnyRule → Bool
   | .override_ r => r.ruleId = ruleRoomNotif || r.ruleId = ruleContainsDisplayName
   | .underride r => r.ruleId = ruleRoomNotif || r.ruleId = ruleContainsDisplayName
